@@ -16,7 +16,7 @@ import PercevalModel.Model.C05
                  (keys in the order `_evolve_cache_with_n` walks them: sorted by n)
   processor op = ["comps", c] | ["add", c] | ["det", d] | ["herald", h, n] | ["ps", p] | ["clear_ps"]
                | ["noise", id, perfect] | ["mutate", id, perfect] | ["input", "bs"|"svd", i, n] | ["filter", k]
-               | ["probs", prec|null]
+               | ["probs", prec|null] | ["samples"]
   out          = "ok" | "exc:<class>" | "stale" | {"res": …}
 -/
 open Lean PM PM.Proto PM.C05
@@ -216,16 +216,21 @@ def parseOpPr (j : Json) : Except String PrOp := do
   | "input" => return .withInput (← parseKindIn (← (← arg a 1).getStr?)) (← argNat a 2) (← argNat a 3)
   | "filter" => return .setFilter (← argNat a 1)
   | "probs" => return .probs (← argOptNat a 1)
+  | "samples" => return .samples
   | _ => throw s!"bad processor op {t}"
+
+def ansPrJ (r : PrAns) : Json :=
+  Json.mkObj [
+      ("comps", (r.comps : Nat)), ("her", (r.her : Nat)), ("ps", (r.ps : Nat)), ("det", (r.det : Nat)),
+      ("phase", (r.phase : Nat)), ("src", optNat r.src),
+      ("kind", match r.kind with | .bs => "bs" | .svd => "svd"),
+      ("inp", (r.inp : Nat)), ("her_in", (r.herIn : Nat)), ("filt", (r.filt : Nat)), ("prec", optNat r.prec)]
 
 def outPrJ : PrOut → Json
   | .ok => "ok"
   | .exc e => .str s!"exc:{e}"
-  | .res r => Json.mkObj [("res", Json.mkObj [
-      ("comps", (r.comps : Nat)), ("her", (r.her : Nat)), ("ps", (r.ps : Nat)), ("det", (r.det : Nat)),
-      ("phase", (r.phase : Nat)), ("src", optNat r.src),
-      ("kind", match r.kind with | .bs => "bs" | .svd => "svd"),
-      ("inp", (r.inp : Nat)), ("her_in", (r.herIn : Nat)), ("filt", (r.filt : Nat)), ("prec", optNat r.prec)])]
+  | .res r => Json.mkObj [("res", ansPrJ r), ("q", "probs")]
+  | .smp r => Json.mkObj [("res", ansPrJ r), ("q", "samples")]
 
 def absPr (s : Pr) : Json :=
   Json.mkObj [("sim", .bool s.sim.isSome), ("inputs_map", .bool s.inputsMap.isSome), ("filt", optNat s.filt),
